@@ -58,18 +58,23 @@ type stormRec struct {
 }
 
 func modeStorm(outPath string, g, n, sample int, seed int64) {
-	keys := []keySpec{{Name: 1, Cls: 1, Sec: 1}, {Name: 2, Cls: 2, Sec: 2}, {Name: 3, Cls: 3, Sec: 3}}
+	// the aes-256 key is the one configured without an id
+	keys := []keySpec{{Name: 1, Cls: 1, Sec: 1}, {Name: emptyName, Cls: 2, Sec: 2}, {Name: 3, Cls: 3, Sec: 3}}
 	reg := newRegistry()
 	cl := service.NewCipherList()
 	cl.Update(reg.build(keys, 1))
 	cache := service.NewReplayCache(0)
-	auth := service.NewShadowsocksStreamAuthenticator(cl, &cache, nil, nil)
+	// two authenticators over the same list and cache: without a logger, and with a DEBUG-level logger (-verbose);
+	// odd goroutines use the second
+	auths := []service.StreamAuthenticateFunc{service.NewShadowsocksStreamAuthenticator(cl, &cache, nil, nil),
+		service.NewShadowsocksStreamAuthenticator(cl, &cache, nil, debugLogger(true))}
 	payload := []byte("response bytes of the storm stage")
 
 	// one connection, run like a handler of service.StreamServe: a panic of the code under test ends this connection
 	// only.  st = "PANIC" if it happened before the authenticator returned; pi != nil with st = "OK" if it happened
 	// while the response was started.
-	handshake := func(key *shadowsocks.EncryptionKey, stream []byte, ip net.IP) (name int, st string, out []byte, pi *panicInfo) {
+	handshake := func(gi int, key *shadowsocks.EncryptionKey, stream []byte, ip net.IP) (name int, st string, out []byte, pi *panicInfo) {
+		auth := auths[gi%2]
 		c := &capConn{memConn: memConn{r: bytes.NewReader(stream), ip: ip}}
 		st = "PANIC"
 		pi = guard(func() {
@@ -109,7 +114,7 @@ func modeStorm(outPath string, g, n, sample int, seed int64) {
 				<-start
 				out := make([]*stormRec, 0, n)
 				for i := 0; i < n; i++ {
-					name, st, resp, pi := handshake(key, streams[i], ip)
+					name, st, resp, pi := handshake(gi, key, streams[i], ip)
 					out = append(out, &stormRec{cls: ks.Cls, cliSalt: streams[i][:ss], name: name, st: st, resp: resp, pi: pi})
 				}
 				recs[gi] = out
@@ -153,7 +158,7 @@ func modeStorm(outPath string, g, n, sample int, seed int64) {
 				for i, r := range mine {
 					jobs = append(jobs, job{nil, validStream(key, i, nil, rng)})
 					var s []byte
-					switch rng.Intn(4) {
+					switch rng.Intn(5) {
 					case 0:
 						s, r.rForm = append([]byte{}, r.resp...), "recorded-whole"
 					case 1:
@@ -162,6 +167,10 @@ func modeStorm(outPath string, g, n, sample int, seed int64) {
 						extra := make([]byte, 1+rng.Intn(60))
 						rng.Read(extra)
 						s, r.rForm = append(append([]byte{}, r.resp...), extra...), "recorded-extended"
+					case 3:
+						other := make([]byte, 50-(ss+2+tagSize)+1+rng.Intn(60))
+						rng.Read(other)
+						s, r.rForm = append(append([]byte{}, r.resp[:ss+2+tagSize]...), other...), "recorded-header-then-other-bytes"
 					default:
 						s, r.rForm = validStream(key, i, r.resp[:ss], rng), "own-stream-under-that-salt"
 					}
@@ -170,7 +179,7 @@ func modeStorm(outPath string, g, n, sample int, seed int64) {
 				<-start2
 				var out []*stormRec
 				for _, j := range jobs {
-					name, st, resp, pi := handshake(key, j.stream, ip)
+					name, st, resp, pi := handshake(gi, key, j.stream, ip)
 					if j.rec == nil {
 						out = append(out, &stormRec{cls: ks.Cls, cliSalt: j.stream[:ss], name: name, st: st, resp: resp, pi: pi})
 					} else {
